@@ -798,7 +798,7 @@ def pick_int_dtypes(rng, d, p=0.25):
         d['idt'] = idt
 
 
-def gen_desc(rng, regime, props=(), lammps=True, nmax=10, many_types=0.06):
+def gen_desc(rng, regime, props=(), lammps=True, nmax=10, many_types=0.06, big_types=0.0, big_types_max=None):
     n = rng.randint(1, nmax)
     vects, origin = gen_box(rng, regime, lammps)
     ntyp = rng.randint(1, 3)
@@ -809,6 +809,11 @@ def gen_desc(rng, regime, props=(), lammps=True, nmax=10, many_types=0.06):
     if ntyp >= 10:
         k = rng.sample(range(n), 2)
         atype[k[0]], atype[k[1]] = ntyp, rng.randint(10, ntyp)
+    if big_types and rng.random() < big_types:
+        # type numbers that do not fit 8 / 16 bits (most types without atoms)
+        top = rng.choice([255, 256, 257, 300, 1024, 32768, 65537] if big_types_max is None else [255, 256, 257, 300])
+        atype = [rng.choice([1, 2, top - 1, top, rng.randint(1, top)]) for _ in range(n)]
+        atype[rng.randrange(n)] = top
     if rng.random() < 0.15:
         atype = [t + 1 for t in atype]            # type 1 absent
     natypes = max(atype)
@@ -826,7 +831,7 @@ def gen_desc(rng, regime, props=(), lammps=True, nmax=10, many_types=0.06):
         for x in shape:
             ncomp *= x
         d['props'][name] = (bool(is_int), shape, [[gen_value(rng, regime, is_int) for _ in range(ncomp)] for _ in range(n)])
-    if rng.random() < 0.15:
+    if rng.random() < 0.15 and natypes < 100:
         d['masses'] = [rng.choice([1.008, 26.9815385, 63.546, 183.84]) * rng.choice([1.0, 1.5]) for _ in range(natypes)]
     if 'm_id' in d['props'] and rng.random() < 0.1:
         # molecule ids beyond 32 bits (LAMMPS "bigbig" tagint)
@@ -2148,7 +2153,7 @@ def gen_data_case(rng, i, wu_p=0.25, raw=0.12):
     units = 'metal' if rng.random() < 0.5 else rng.choice(UNIT_STYLES)
     with_vel = rng.random() < 0.4
     lammps = rng.random() > 0.04
-    d = gen_desc(rng, regime, needed_props(style, with_vel), lammps=lammps)
+    d = gen_desc(rng, regime, needed_props(style, with_vel), lammps=lammps, big_types=0.04)
     ff = pick_format(rng, units, raw)
     natypes = None
     if rng.random() < 0.2:
@@ -2167,7 +2172,7 @@ def gen_data_case(rng, i, wu_p=0.25, raw=0.12):
     if rng.random() < 0.1:
         add_namesake(rng, d)
     pick_int_dtypes(rng, d)
-    ntform = rng.choice([None, None, 'int64', 'int32', 'uint8', 'int16']) if natypes is not None else None
+    ntform = rng.choice([None, None, 'int64', 'int32'] + int_dtypes_for(0, natypes)) if natypes is not None else None
     c = {'kind': 'data', 'ntform': ntform, 'd': d, 'style': style, 'units': units, 'ff': ff, 'natypes': natypes, 'fname': fname,
          'opts': opts, 'pre': pre, 'wu': gen_wu(rng, wu_p)}
     if rng.random() < 0.15:
@@ -2218,7 +2223,9 @@ DUMP_EXTRA = [('velocity', 0, 3), ('force', 0, 3), ('charge', 0, 1), ('mass', 0,
 # per-atom tensors: rank >= 2, not symmetric (independent random components), not square: every column of the file is
 # checked against the component its header names
 TENSORS = [('defgrad', 0, (3, 3)), ('gmat', 0, (2, 3)), ('hmat', 0, (3, 2)), ('t3', 0, (2, 2, 2)), ('imat', 1, (2, 3)),
-           ('row', 0, (1, 3)), ('t4', 0, (3, 1, 2))]
+           ('row', 0, (1, 3)), ('t4', 0, (3, 1, 2)),
+           # two-digit component numbers: v12[10] comes after v12[9], not after v12[1]
+           ('v12', 0, (12,)), ('w11', 0, (11, 2))]
 SPECIALS = [-0.0, 5e-324, 2.2250738585072014e-308, 1e-300, 1e300, -1e300, 1.7976931348623157e308, float('nan'),
             float('inf'), float('-inf'), 1e-20, 123456789012345.6]
 
@@ -2249,7 +2256,7 @@ def gen_dump_case(rng, i, wu_p=0.25, raw=0.12, specials=0.0):
     units = 'metal' if rng.random() < 0.5 else rng.choice(UNIT_STYLES)
     props = [p for p in DUMP_EXTRA if rng.random() < 0.18 and not (units == 'lj' and p[0] == 'torque')]
     props += [p for p in TENSORS if rng.random() < 0.12]
-    d = gen_desc(rng, regime, props, lammps=rng.random() > 0.04)
+    d = gen_desc(rng, regime, props, lammps=rng.random() > 0.04, big_types=0.04)
     n = len(d['atype'])
     if rng.random() < 0.25:
         ids = rng.sample(range(1, 4 * n + 2), n)
@@ -2298,9 +2305,19 @@ ELEMENTS = ['Al', 'Cu', 'Fe', 'Ni', 'O', 'U', 'W', 'Zr', 'Ag', 'Au', 'Pt', 'Pd',
 LIGHT = ['H', 'He', 'Li', 'Be', 'B', 'C', 'N', 'F', 'Ne', 'Na', 'Mg', 'P', 'S', 'Cl', 'Ar', 'K', 'Ca', 'Sc']
 
 
+def some_symbols(rng, pool, n):
+    """n distinct species names: element symbols while they last, then made-up ones (E19, E20, ...)."""
+    if n <= len(pool):
+        return rng.sample(pool, n)
+    out = list(pool) + [f'{pool[0][0]}{k}' for k in range(len(pool) + 1, n + 1)]
+    rng.shuffle(out)
+    return out
+
+
 def gen_poscar_case(rng, i, raw=0.12):
     regime = 'grid' if i % 2 == 0 else 'generic'
-    d = gen_desc(rng, regime, [], lammps=rng.random() < 0.7, nmax=40 if rng.random() < 0.15 else 10)
+    d = gen_desc(rng, regime, [], lammps=rng.random() < 0.7, nmax=40 if rng.random() < 0.15 else 10, big_types=0.03,
+                 big_types_max=300)
     coordstyle = rng.choice(['direct', 'cartesian', 'Direct', 'Cartesian', 'cart', 'k', 'D'])
     if regime == 'grid':
         scale = rng.choice([1.0, 2.0, 0.5, 4.0, 0.25, 1.0])
@@ -2323,13 +2340,13 @@ def gen_poscar_case(rng, i, raw=0.12):
         src = rng.choice(['arg', 'arg', 'system', 'both'])
         if src != 'arg' and rng.random() < 0.45:
             d['natypes'] += rng.choice([1, 1, 2])      # the system's symbols define more types than the atoms use
-        symbols = rng.sample(ELEMENTS, d['natypes'])
+        symbols = some_symbols(rng, ELEMENTS, d['natypes'])
         if src in ('arg', 'both'):
             symarg = list(symbols)
             if len(symbols) == 1 and rng.random() < 0.6:
                 symarg = symbols[0]
         if src in ('system', 'both'):
-            d['symbols'] = list(symbols) if src == 'system' else rng.sample(LIGHT, d['natypes'])
+            d['symbols'] = list(symbols) if src == 'system' else some_symbols(rng, LIGHT, d['natypes'])
     elif r < 0.65 and d['natypes'] >= 2:
         d['symbols'] = [None if k == rng.randrange(d['natypes']) or rng.random() < 0.3 else 'Al' + 'x' * k
                         for k in range(d['natypes'])]
@@ -2375,7 +2392,7 @@ def gen_table_case(rng, i, wu_p=0.25, raw=0.12, specials=0.0):
     units = rng.choice(['metal', 'real', 'si', 'nano'])
     props = [p for p in [('velocity', 0, 3), ('charge', 0, 1), ('m_id', 1, 1), ('force', 0, 3)] if rng.random() < 0.5]
     props += [p for p in TENSORS if rng.random() < 0.2]
-    d = gen_desc(rng, regime, props)
+    d = gen_desc(rng, regime, props, big_types=0.04)
     if rng.random() < specials:
         add_specials(rng, d)
     defaults = rng.random() < 0.25
@@ -2385,7 +2402,7 @@ def gen_table_case(rng, i, wu_p=0.25, raw=0.12, specials=0.0):
     for name, (is_int, shape, _arr) in d['props'].items():
         us = kinds.get(name, 'none') if rng.random() < 0.7 else 'none'
         names = [name + ''.join(f'[{k}]' for k in idx) for idx in _indices(tuple(shape))]
-        if len(names) > 1 and rng.random() < 0.5:
+        if 1 < len(names) <= 12 and rng.random() < 0.5:
             names = [f'{name}{w}' for w in rng.sample(['_one', '_two', '_3', 'X', 'b', 'A', 'q7', 'Zz', 'm', '_k', 'e2', 'W'],
                                                          len(names))]    # any order of names
         cols.append((name, us, names))
@@ -2566,7 +2583,15 @@ def exact_expected(c):
 def written_magnitude(c):
     d = c['d']
     if c['kind'] == 'poscar':
-        return Fraction(magnitude(d)) / F(c['scale'])
+        m = Fraction(magnitude(d)) / F(c['scale'])
+        if c['coordstyle'][:1] not in 'cCkK':
+            # direct mode: box-relative numbers, rounding error relative to |pos|·|V⁻¹| (an atom 100 000 cells away)
+            try:
+                vi = inv3([[F(v) for v in r] for r in d['vects']])
+                m = max(m, Fraction(magnitude(d)) * max(abs(x) for r in vi for x in r))
+            except ZeroDivisionError:
+                pass
+        return m
     f = unit_factors(c['units']).get('length')
     m = Fraction(magnitude(d, f if f else None))
     scaled = (c['kind'] == 'table' and any(us == 'scaled' for _p, us, _n in c['cols'])) or \
@@ -3518,6 +3543,7 @@ def search(ctx, broken):
     # sizes: every writer on 2^k - 1, 2^k, 2^k + 1 atoms (k = 7..13) and a few more; one system of about 70 000 and one
     # of about 140 000 atoms (just below / at / above 65536 and 131072 among them) through every writer
     base += sized_cases(rng, MEDIUM_SIZES)
+    base += sized_cases(rng, [65537], per_size=2)
     for _ in range(ctx.n(1, 3)):
         base += sized_cases(rng, [rng.choice(BIG_SIZES_A), rng.choice(BIG_SIZES_B)])
     # the search also draws what the model has no counterpart for: %g formats, values at the edges of the double range
